@@ -492,7 +492,7 @@ theorem good_step {s : S} (h : Good s) (op : Op) : Good (step s op) := by
     generalize clashes s name = clash
     generalize refusedBy s sup = refused
     have htomb : ∀ (nm sp : Option Nat), Good { s with actors := s.actors ++
-        [(⟨nm, sp, false, .stopped, true, [], [], [], 0, 0, false, []⟩ : Actor)] } := fun nm sp =>
+        [(⟨nm, sp, false, .stopped, true, [], [], [], 0, 0, false, [], none⟩ : Actor)] } := fun nm sp =>
       good_append h _ s.names (fun _ => ⟨rfl, rfl, rfl, rfl, rfl, rfl, rfl, rfl⟩) rfl
         (fun hs => by simp at hs) (fun nv hnv => Or.inl hnv)
     cases clash with
@@ -528,12 +528,19 @@ theorem good_step {s : S} (h : Good s) (op : Op) : Good (step s op) := by
     · rename_i hst
       exact good_touch_starting h a hst _ (fun _ => rfl) (fun _ => rfl) (fun _ => rfl) (fun _ => rfl)
     · exact h
+  | selflink a w =>
+    simp only [step]; split
+    · rename_i hc
+      have hst : isStarting s a = true := by
+        simp only [Bool.and_eq_true] at hc; exact hc.1.1
+      exact good_touch_starting h a hst _ (fun _ => rfl) (fun _ => rfl) (fun _ => rfl) (fun _ => rfl)
+    · exact h
   | spawnChild a =>
     simp only [step]; split
-    · have h1 := good_append h (⟨none, some a, true, .running, false, [], [], [], 0, 0, true, []⟩ : Actor) s.names
+    · have h1 := good_append h (⟨none, some a, true, .running, false, [], [], [], 0, 0, true, [], none⟩ : Actor) s.names
         (fun hf => by cases hf) rfl (fun hs => by cases hs) (fun nv hnv => Or.inl hnv)
       refine good_pushEvent h1 a s.actors.length .started ?_
-      refine ⟨(⟨none, some a, true, .running, false, [], [], [], 0, 0, true, []⟩ : Actor), ?_, by simp, rfl⟩
+      refine ⟨(⟨none, some a, true, .running, false, [], [], [], 0, 0, true, [], none⟩ : Actor), ?_, by simp, rfl⟩
       simp only
       rw [List.getElem?_append_right (Nat.le_refl _)]; simp
     · exact h
@@ -580,16 +587,30 @@ theorem good_step {s : S} (h : Good s) (op : Op) : Good (step s op) := by
       cases o with
       | ok =>
         simp only
-        obtain ⟨x, hx, _⟩ := isStarting_iff.mp hst'
+        obtain ⟨x, hx, hxs⟩ := isStarting_iff.mp hst'
         simp only [hx]
-        cases x.sup with
-        | none => exact (good_becomeRunning h a false hst').1
+        cases x.req with
         | some p =>
           simp only
           split
-          · obtain ⟨hg, hr⟩ := good_becomeRunning h a true hst'
+          · -- the requested supervisor takes the slot, then the actor runs
+            have hg0 : Good (setActor s a (fun x => { x with sup := some p })) :=
+              good_touch_starting h a hst' _ (fun _ => rfl) (fun _ => rfl) (fun _ => rfl) (fun _ => rfl)
+            have hst0 : isStarting (setActor s a (fun x => { x with sup := some p })) a = true := by
+              rw [isStarting_iff]
+              exact ⟨{ x with sup := some p }, by rw [getElem?_setActor, hx]; simp, hxs⟩
+            obtain ⟨hg, hr⟩ := good_becomeRunning hg0 a true hst0
             exact good_pushEvent hg p a .started hr
           · exact good_failStart h a hst'
+        | none =>
+          simp only
+          split
+          · cases x.sup with
+            | none => exact (good_becomeRunning h a true hst').1
+            | some w =>
+              obtain ⟨hg, hr⟩ := good_becomeRunning h a true hst'
+              exact good_pushEvent hg w a .started hr
+          · exact (good_becomeRunning h a false hst').1
       | err => exact good_failStart h a hst'
       | panic => exact good_failStart h a hst'
   | cut a =>
